@@ -81,8 +81,19 @@ def _inline_at(F, b, g):
             F.setdefault("debug", []).append({"name": d["name"], "place": _shift_place(d["place"], L)})
     # parameter passing
     pre = F["blocks"][b]["stmts"]
-    for i, a in enumerate(term["args"]):
-        pre.append({"k": "assign", "p": {"l": L + 1 + i}, "r": {"k": "use", "a": a}, "sp": sp, "inl": True})
+    if g.get("defkind") == "Closure" and len(term["args"]) == 2 and g.get("arg_count", 0) >= 1:
+        # direct call of a closure: (environment, tuple of arguments); the body takes the tuple's fields as separate parameters
+        pre.append({"k": "assign", "p": {"l": L + 1}, "r": {"k": "use", "a": term["args"][0]}, "sp": sp, "inl": True})
+        tup = term["args"][1]
+        for i in range(g["arg_count"] - 1):
+            if tup.get("p") is None:
+                break
+            pl = dict(tup["p"])
+            pl["pr"] = list(pl.get("pr", [])) + [{"f": i, "n": str(i)}]
+            pre.append({"k": "assign", "p": {"l": L + 2 + i}, "r": {"k": "use", "a": {"k": "copy", "p": pl}}, "sp": sp, "inl": True})
+    else:
+        for i, a in enumerate(term["args"]):
+            pre.append({"k": "assign", "p": {"l": L + 1 + i}, "r": {"k": "use", "a": a}, "sp": sp, "inl": True})
     dest, cont, unwind = term["dest"], term.get("t"), term.get("unwind")
     F["blocks"][b]["term"] = {"k": "goto", "t": NB, "sp": sp}
     for blk in g["blocks"]:
@@ -140,6 +151,13 @@ def _reaches(fns, src, dst, limit=4000):
 def new_functions(fns, ref):
     out = []
     for n, rec in fns.items():
+        if rec.get("bkind") == "fn" and rec.get("defkind") == "Closure" and (n.startswith("lace::") or n.startswith("bin::")):
+            # a closure the reference version of its parent function did not have, if it is called directly (`let f = |..| ..; f(x)`)
+            parent = n.split("::{closure", 1)[0]
+            known = ref.get("closures-of:" + parent, {}).get("callees", [])
+            if alias.closure_shape(rec) not in known and len(rec.get("blocks", [])) <= MAX_BLOCKS and not _reaches(fns, n, n):
+                out.append(n)
+            continue
         if n in ref or rec.get("bkind") != "fn" or rec.get("auto_derived"):
             continue
         if rec.get("defkind") not in ("Fn", "AssocFn") or "{closure" in n or "promoted[" in n:
@@ -178,7 +196,7 @@ def inline_new(dicts):
                 cname = _callee(t) if t.get("k") == "call" else None
                 if cname in new and len(F["blocks"]) < 6000:
                     g = pristine[cname]
-                    if len(t.get("args", [])) == g.get("arg_count"):
+                    if len(t.get("args", [])) == g.get("arg_count") or (g.get("defkind") == "Closure" and len(t.get("args", [])) == 2):
                         _inline_at(F, b, copy.deepcopy(g))
                         done[cname] = done.get(cname, 0) + 1
                         changed = True
